@@ -147,12 +147,10 @@ class Builder:
     def __init__(self, forest):
         self.forest = forest
         self.interp = Interp()
-        self.genv = ev.base_env(forest, 'encoder')
-        self.genv.update(model_env())
-        # make repository functions callable from each other inside the interpreter
-        for name in ('make_matrix', 'add_timing_pattern', 'add_finder_patterns', 'add_alignment_patterns',
-                     'add_format_info', 'add_version_info', 'calc_format_info', 'calc_matrix_size'):
-            self.genv[name] = FuncVal(forest.func('encoder', name), self.genv, self.interp)
+        # repository functions are callable from each other inside the interpreter (functions imported from another module run
+        # in the globals of that module)
+        from .interp import callable_env
+        self.genv = callable_env(forest, 'encoder', self.interp, model_env())
 
     def fn(self, name):
         return self.genv[name]
@@ -165,6 +163,6 @@ class Builder:
         genv = dict(self.genv)
         genv['consts'] = ev.Namespace('consts', vals, ns._failed)
         for k, v in list(genv.items()):
-            if isinstance(v, FuncVal):
+            if isinstance(v, FuncVal) and v.genv is self.genv:
                 genv[k] = FuncVal(v.node, genv, self.interp)
         return genv
